@@ -123,7 +123,8 @@ def build():
     bare_tuple = z3.Function("is_bare_tuple", TY.z3(), z3.BoolSort())
     sf["is_bare_tuple"] = lambda t: VBool(z3.And(kind(t.term) == K["COLLBARE"], bare_tuple(t.term)))
     sf["union_has_none"] = lambda t: VBool(has_none(t.term))
-    A(Contract(f"{TM_}:unwrap_newtype", params={"type_": "Ty"}, returns="Ty", trusted=True, trusted_reason=why, props=P,
+    A(Contract(f"{TM_}:unwrap_newtype", params={"type_": "Ty"}, returns="Ty", trusted=True, props=P,
+               trusted_reason="callee summary; proved in contracts.typing_area as unwrap_newtype#body against the kind model (isinstance(t, NewType) is kind == NEWTYPE, t.__supertype__ is inner(t))",
                ensures=["implies(kind(type_) == K_NEWTYPE, result == inner(type_))", "implies(kind(type_) != K_NEWTYPE, result == type_)"]))
     A(Contract("typing:get_args", params={"tp": "Ty"}, returns="Seq[Ty]", trusted=True, trusted_reason=why, props=P, ensures=["result == args(tp)"]))
     get_origin_none = lambda t: z3.Not(isk(t, "UNION", "TUPLE", "COLL", "LITERAL", "TYPEGEN"))
@@ -319,5 +320,28 @@ def build():
                ensures=["result == bad_fields(node, type_map)"],
                loops={1: Loop(inv=["incorrect_fields == bad_fields(node, done1)"])},
                note="the returned list is exactly the fields whose value is_instance rejects for the field's resolved type, in mapping order (type_map abstracted as its items sequence)"))
+    # ---- the two NewType helpers against the kind model: isinstance(t, NewType) is `kind == NEWTYPE`, t.__supertype__ is inner(t) -----------------------
+    def isinst_nt(m, v, cls):
+        if isinstance(v, VU) and v.sort == TY and getattr(cls, "name", None) == "NewType":
+            return kind(v.term) == K["NEWTYPE"]
+        return None
+
+    def attr_nt(m, obj, name):
+        if isinstance(obj, VU) and obj.sort == TY and name == "__supertype__":
+            return TY.wrap(inner(obj.term))
+        return None
+
+    world.isinstance_hooks.insert(0, isinst_nt)
+    world.attr_hooks.insert(0, attr_nt)
+    world.name_hooks.append(lambda m, n: VCls("NewType") if n == "NewType" else None)
+    A(Contract(f"{TM_}:unwrap_newtype", variant_of="body", params={"type_": "Ty"}, returns="Ty", props=P, requires=["wf_ty(type_)"],
+               ensures=["implies(kind(old(type_)) == K_NEWTYPE, result == inner(old(type_)))", "implies(kind(old(type_)) != K_NEWTYPE, result == old(type_))"],
+               loops={1: Loop(inv=["type_ == old(type_) or (kind(old(type_)) == K_NEWTYPE and type_ == inner(old(type_)) and kind(type_) != K_NEWTYPE)"])},
+               note="the wrapped type of a NewType, the type itself otherwise (the loop runs at most once: wf_ty says a NewType wraps a non-NewType); "
+                    "model: isinstance(t, NewType) is kind == NEWTYPE, t.__supertype__ is inner(t)"))
+    reg.contracts[f"{TM_}:unwrap_newtype#body"].fn = f"{TM_}:unwrap_newtype"
+    A(Contract(f"{TM_}:is_new_type", variant_of="body", params={"type_": "Ty"}, returns="bool", props=P, ensures=["result == (kind(type_) == K_NEWTYPE)"],
+               note="isinstance against typing.NewType (a TypeError from isinstance would answer False; none arises in the model)"))
+    reg.contracts[f"{TM_}:is_new_type#body"].fn = f"{TM_}:is_new_type"
     world.trusted_notes.append("wf_ty / wf_val (the shape facts CPython's typing module guarantees for annotations, the value kinds) are assumed of EVERY annotation and value object, nested ones included: the induction hypotheses used for members, element types and wrapped types rely on that, the recursive summary is_instance#callee does not re-require them")
     return world, lib, reg, []
